@@ -20,28 +20,36 @@ def msgsOf (r : Nat) (ms : List (Nat × Msg)) : List Msg := (ms.filter (·.1 = r
 theorem msgsOf_append (r : Nat) (a b : List (Nat × Msg)) : msgsOf r (a ++ b) = msgsOf r a ++ msgsOf r b := by
   simp [msgsOf]
 
-theorem reqsFor_append (l : Nat) (a b : List (Nat × Msg)) : reqsFor l (a ++ b) = reqsFor l a ++ reqsFor l b := by
+theorem reqsFor_append (c : Cfg) (l : Nat) (a b : List (Nat × Msg)) : reqsFor c l (a ++ b) = reqsFor c l a ++ reqsFor c l b := by
   simp [reqsFor]
 
-theorem reqsOfInbox_append (r l : Nat) (a b : List Msg) :
-    reqsOfInbox r l (a ++ b) = reqsOfInbox r l a ++ reqsOfInbox r l b := by
+theorem reqsOfInbox_append (c : Cfg) (r l : Nat) (a b : List Msg) :
+    reqsOfInbox c r l (a ++ b) = reqsOfInbox c r l a ++ reqsOfInbox c r l b := by
   simp [reqsOfInbox]
 
 theorem fromRemote_append (r : Nat) (a b : List Req) : fromRemote r (a ++ b) = fromRemote r a ++ fromRemote r b := by
   simp [fromRemote]
 
-theorem reqOf_remote {r r' : Nat} {e : Env} {q : Req} (h : reqOf r e = some q) :
+theorem reqOf_remote {c : Cfg} {l r r' : Nat} {e : Env} {q : Req} (h : reqOf c l r e = some q) :
     (match q with | .command x _ => decide (x = r') | .sync x => decide (x = r')) = decide (r = r') := by
-  cases e <;> simp [reqOf] at h <;> subst h <;> rfl
+  cases e with
+  | link => simp [reqOf] at h
+  | unlink => simp [reqOf] at h
+  | sync => simp [reqOf] at h; subst h; rfl
+  | command b =>
+    simp only [reqOf] at h
+    by_cases hr : c.rejects l (.command b) = true
+    · simp [hr] at h
+    · simp [hr] at h; subst h; rfl
 
 /-- the requests of remote `r` among those picked for lane `l` are the requests among `r`'s own picked envelopes -/
-theorem fromRemote_reqsFor (r l : Nat) (ms : List (Nat × Msg)) :
-    fromRemote r (reqsFor l ms) = reqsOfInbox r l (msgsOf r ms) := by
+theorem fromRemote_reqsFor (c : Cfg) (r l : Nat) (ms : List (Nat × Msg)) :
+    fromRemote r (reqsFor c l ms) = reqsOfInbox c r l (msgsOf r ms) := by
   induction ms with
   | nil => rfl
   | cons p rest ih =>
     obtain ⟨r', l', e⟩ := p
-    have hc : reqsFor l ((r', l', e) :: rest) = reqsFor l [(r', l', e)] ++ reqsFor l rest := by
+    have hc : reqsFor c l ((r', l', e) :: rest) = reqsFor c l [(r', l', e)] ++ reqsFor c l rest := by
       rw [← reqsFor_append]; rfl
     have hm : msgsOf r ((r', l', e) :: rest) = msgsOf r [(r', l', e)] ++ msgsOf r rest := by
       rw [← msgsOf_append]; rfl
@@ -50,12 +58,12 @@ theorem fromRemote_reqsFor (r l : Nat) (ms : List (Nat × Msg)) :
     by_cases hl : l' = l
     · by_cases hr : r' = r
       · subst hr
-        cases hq : reqOf r' e with
+        cases hq : reqOf c l r' e with
         | none => simp [reqsFor, msgsOf, reqsOfInbox, fromRemote, hl, hq]
         | some q =>
           have := reqOf_remote (r' := r') hq
           cases q <;> simp [reqsFor, msgsOf, reqsOfInbox, fromRemote, hl, hq] <;> simpa using this
-      · cases hq : reqOf r' e with
+      · cases hq : reqOf c l r' e with
         | none => simp [reqsFor, msgsOf, reqsOfInbox, fromRemote, hl, hq, hr]
         | some q =>
           have := reqOf_remote (r' := r) hq
@@ -172,11 +180,52 @@ theorem switchTo_disc {s : St} (h : Disc s) (l : Nat) : Disc (switchTo s l) := b
     · simp only [hi, if_true]; exact h
     · simp only [hi, if_false]; exact flushLane_disc h
 
+/-! ### a command for an existing lane -/
+
+@[simp] theorem countCommand_sender (s : St) (l : Nat) : (countCommand s l).sender = s.sender := rfl
+@[simp] theorem countCommand_nf (s : St) (l : Nat) : (countCommand s l).needsFlush = s.needsFlush := rfl
+@[simp] theorem countCommand_inbox (s : St) (l : Nat) : (countCommand s l).inbox = s.inbox := rfl
+@[simp] theorem countCommand_picked (s : St) (l : Nat) : (countCommand s l).picked = s.picked := rfl
+@[simp] theorem countCommand_sent (s : St) (l : Nat) : (countCommand s l).sent = s.sent := rfl
+@[simp] theorem countCommand_delivered (s : St) (l : Nat) : (countCommand s l).delivered = s.delivered := rfl
+
+theorem handleCommand_stream (c : Cfg) (s : St) (r l b l' : Nat) :
+    (handleCommand c s r l b).laneStream l' =
+      s.laneStream l' ++ (if l = l' then (reqOf c l r (.command b)).toList else []) := by
+  unfold handleCommand
+  by_cases hr : c.rejects l (.command b) = true
+  · simp [hr, reqOf, laneStream_eq]
+  · simp only [hr, if_false]
+    by_cases hl : l = l'
+    · subst hl
+      cases (c.eager || c.mapLanes.contains l) <;> simp [laneStream_eq, reqOf, hr]
+    · have hl' : l' ≠ l := fun h => hl h.symm
+      simp [laneStream_eq, hl, upd_ne _ _ hl']
+
+theorem handleCommand_disc (c : Cfg) {s : St} {l : Nat} (hd : Disc s)
+    (hb : ∀ l', l' ≠ l → (s.sender l').buf = []) (r b : Nat) : Disc (handleCommand c s r l b) := by
+  unfold handleCommand
+  by_cases hr : c.rejects l (.command b) = true
+  · simp only [hr, if_true]; exact hd
+  · rw [if_neg hr]
+    intro l' hne
+    by_cases hl : l' = l
+    · subst hl; rfl
+    · simp only [countCommand_sender, upd_ne _ _ hl] at hne
+      exact absurd (hb l' hl) hne
+
+@[simp] theorem handleCommand_inbox (c : Cfg) (s : St) (r l b : Nat) : (handleCommand c s r l b).inbox = s.inbox := by
+  unfold handleCommand; split <;> rfl
+@[simp] theorem handleCommand_picked (c : Cfg) (s : St) (r l b : Nat) : (handleCommand c s r l b).picked = s.picked := by
+  unfold handleCommand; split <;> rfl
+@[simp] theorem handleCommand_sent (c : Cfg) (s : St) (r l b : Nat) : (handleCommand c s r l b).sent = s.sent := by
+  unfold handleCommand; split <;> rfl
+
 /-! ### one envelope -/
 
 /-- what lane `l'` gains when the read task handles an envelope of remote `r` for lane `l` -/
 def gain (c : Cfg) (r l : Nat) (e : Env) (l' : Nat) : List Req :=
-  if l = l' then (if c.known.contains l then (reqOf r e).toList else []) else []
+  if l = l' then (if c.known.contains l then (reqOf c l r e).toList else []) else []
 
 theorem handle_stream (c : Cfg) (s : St) (r l : Nat) (e : Env) (l' : Nat) :
     (handle c s r l e).laneStream l' = s.laneStream l' ++ gain c r l e l' := by
@@ -198,11 +247,7 @@ theorem handle_stream (c : Cfg) (s : St) (r l : Nat) (e : Env) (l' : Nat) :
       · have hl' : l' ≠ l := fun h => hl h.symm
         simp [laneStream_eq, hl, upd_ne _ _ hl']
     | command b =>
-      rw [← hs]
-      by_cases hl : l = l'
-      · subst hl; cases c.eager <;> simp [laneStream_eq, reqOf]
-      · have hl' : l' ≠ l := fun h => hl h.symm
-        simp [laneStream_eq, hl, upd_ne _ _ hl']
+      rw [← hs, handleCommand_stream]
   · simp only [hk, if_false]
     have hs := flushLane_stream s l'
     cases e <;> simp [← hs, laneStream_eq]
@@ -222,12 +267,7 @@ theorem handle_disc (c : Cfg) {s : St} (h : Disc s) (r l : Nat) (e : Env) : Disc
       · subst hl; simp at hne
       · simp only [upd_ne _ _ hl] at hne
         exact absurd (hb l' hl) hne
-    | command b =>
-      intro l' hne
-      by_cases hl : l' = l
-      · subst hl; rfl
-      · simp only [upd_ne _ _ hl] at hne
-        exact absurd (hb l' hl) hne
+    | command b => exact handleCommand_disc c hd hb r b
   · simp only [hk, if_false]
     have hd := flushLane_disc h
     cases e <;> exact hd
@@ -254,7 +294,7 @@ theorem handle_sent (c : Cfg) (s : St) (r l : Nat) (e : Env) : (handle c s r l e
 
 structure Inv (c : Cfg) (s : St) : Prop where
   /-- every existing lane has been given exactly the requests picked for it, in pick order -/
-  lane : ∀ l, c.known.contains l = true → s.laneStream l = reqsFor l s.picked
+  lane : ∀ l, c.known.contains l = true → s.laneStream l = reqsFor c l s.picked
   /-- every remote's channel is a FIFO: picked ++ waiting = sent -/
   remote : ∀ r, msgsOf r s.picked ++ s.inbox r = msgsOf r s.sent
   /-- the flush discipline -/
@@ -264,12 +304,12 @@ theorem inv_init (c : Cfg) : Inv c {} :=
   ⟨fun l _ => by simp [St.laneStream, deliveredTo, reqsFor], fun r => by simp [msgsOf], fun l h => by simp at h⟩
 
 theorem gain_eq (c : Cfg) (r l : Nat) (e : Env) (l' : Nat) (hk : c.known.contains l' = true) :
-    gain c r l e l' = reqsFor l' [(r, l, e)] := by
+    gain c r l e l' = reqsFor c l' [(r, l, e)] := by
   unfold gain reqsFor
   by_cases hl : l = l'
   · subst hl
     have hk' : l ∈ c.known := by simpa using hk
-    cases h : reqOf r e <;> simp [hk', h]
+    cases h : reqOf c l r e <;> simp [hk', h]
   · simp [hl]
 
 theorem inv_step (c : Cfg) {s : St} (h : Inv c s) (op : Op) : Inv c (step c s op) := by
@@ -292,7 +332,7 @@ theorem inv_step (c : Cfg) {s : St} (h : Inv c s) (op : Op) : Inv c (step c s op
       obtain ⟨l, e⟩ := m
       refine ⟨fun l' hk => ?_, fun r' => ?_, ?_⟩
       · rw [handle_stream, handle_picked]
-        show s.laneStream l' ++ gain c r l e l' = reqsFor l' (s.picked ++ [(r, l, e)])
+        show s.laneStream l' ++ gain c r l e l' = reqsFor c l' (s.picked ++ [(r, l, e)])
         rw [reqsFor_append, h.lane l' hk, gain_eq c r l e l' hk]
       · rw [handle_inbox, handle_picked, handle_sent]
         show msgsOf r' (s.picked ++ [(r, l, e)]) ++ upd s.inbox r rest r' = msgsOf r' s.sent
@@ -305,7 +345,7 @@ theorem inv_step (c : Cfg) {s : St} (h : Inv c s) (op : Op) : Inv c (step c s op
           h.disc r l e
   | idle =>
     refine ⟨fun l hk => ?_, fun r => ?_, flushLane_disc h.disc⟩
-    · show (flushLane s).laneStream l = reqsFor l (flushLane s).picked
+    · show (flushLane s).laneStream l = reqsFor c l (flushLane s).picked
       rw [flushLane_stream, flushLane_picked]; exact h.lane l hk
     · show msgsOf r (flushLane s).picked ++ (flushLane s).inbox r = msgsOf r (flushLane s).sent
       simp only [flushLane_picked, flushLane_inbox, flushLane_sent]; exact h.remote r
@@ -328,6 +368,9 @@ theorem inv_step (c : Cfg) {s : St} (h : Inv c s) (op : Op) : Inv c (step c s op
           exact h.disc l' hne
         · simp only [upd_ne _ _ hl] at hne
           exact h.disc l' hne
+
+  | snapLane l => exact ⟨h.lane, h.remote, h.disc⟩
+  | snapAgg => exact ⟨h.lane, h.remote, h.disc⟩
 
 theorem inv_run (c : Cfg) (ops : List Op) : ∀ (s : St), Inv c s → Inv c (run c s ops) := by
   induction ops with
